@@ -342,7 +342,7 @@ NEIGHBOUR_BEFORE = 11
 NEIGHBOUR_AFTER = 'zz"z'
 
 
-def build_grid(hz, position, value, version):
+def build_grid(hz, position, value, version, value2=None):
     """2 columns x 2 rows skeleton with concrete neighbours of other kinds; `value` placed at `position`"""
     D = sys.modules['hszinc.datatypes']
     meta = [('dis', 'meta, "x"')]
@@ -369,7 +369,7 @@ def build_grid(hz, position, value, version):
         ng.append({'n1': NEIGHBOUR_BEFORE})
         cell = ng
     g.append({'c1': NEIGHBOUR_BEFORE, 'c2': NEIGHBOUR_AFTER})
-    g.append({'c1': cell, 'c2': NEIGHBOUR_AFTER})
+    g.append({'c1': cell, 'c2': NEIGHBOUR_AFTER if value2 is None else value2})      # value2: a second symbolic payload in the adjacent cell
     g.append({'c2': D.MARKER})
     return g
 
@@ -430,14 +430,25 @@ def run_job(job):
             for reg in exclude:
                 ex.assume(z3.Not(z3.Or(*[z3.And(c >= lo, c <= hi) for lo, hi in reg['chars']])))
         s = SymStr(cs) if N else ''
+        ds = []
+        if job.get('kind2'):
+            ds = [z3.Int('d%d' % i) for i in range(job.get('N2', 1))]
+            for d in ds:
+                char_domain(ex, d, None)
+                if job.get('alphabet'):
+                    ex.assume(z3.Or(*[d == ord(ch) for ch in job['alphabet']]))
 
         def model():
             if ex.check() != z3.sat:
                 return None
             m = ex.model()
-            return ''.join(chr(m.eval(c, model_completion=True).as_long()) for c in cs)
+            p1 = ''.join(chr(m.eval(c, model_completion=True).as_long()) for c in cs)
+            if ds:
+                return [p1, ''.join(chr(m.eval(d, model_completion=True).as_long()) for d in ds)]
+            return p1
         value = make_payload(hz, kind, s)
-        g = build_grid(hz, position, value, version)
+        value2 = make_payload(hz, job['kind2'], SymStr(ds)) if ds else None
+        g = build_grid(hz, position, value, version, value2)
         if assertion in ('zincref', 'jsonref'):
             try:
                 with contextlib.redirect_stdout(io.StringIO()):
@@ -511,6 +522,14 @@ def catalogue(hz, version, extra=None):
             Z.timezone('Paris').localize(datetime.datetime(2021, 7, 1, 12, 30, 15, 250000)),
             Z.timezone('New_York').localize(datetime.datetime(2021, 1, 1, 23, 59, 59)),
             Z.timezone('Kolkata').localize(datetime.datetime(1999, 12, 31, 23, 59, 59, 1)),
+            # both occurrences of a repeated hour (clocks going back) and the hour after a skipped one
+            Z.timezone('Berlin').localize(datetime.datetime(2016, 10, 30, 2, 30, 0), is_dst=True),
+            Z.timezone('Berlin').localize(datetime.datetime(2016, 10, 30, 2, 30, 0), is_dst=False),
+            Z.timezone('New_York').localize(datetime.datetime(2018, 11, 4, 1, 30, 0), is_dst=True),
+            Z.timezone('Sydney').localize(datetime.datetime(2017, 4, 2, 2, 30, 0), is_dst=True),
+            Z.timezone('Lord_Howe').localize(datetime.datetime(2017, 4, 2, 1, 45, 0), is_dst=True),
+            Z.timezone('St_Johns').localize(datetime.datetime(2021, 1, 15, 8, 0, 0)),
+            Z.timezone('New_York').localize(datetime.datetime(2018, 3, 11, 3, 0, 0)),
             datetime.datetime(2020, 1, 15, 12, 0, 0, tzinfo=datetime.timezone(datetime.timedelta(hours=-8))),
             datetime.datetime(2020, 7, 15, 12, 0, 0, tzinfo=datetime.timezone(datetime.timedelta(hours=-8))),
             datetime.datetime(2020, 7, 15, 12, 0, 0, tzinfo=datetime.timezone(datetime.timedelta(hours=-7))),
@@ -561,11 +580,11 @@ def run_catalog(job):
                 errors=[], samples=[], functions=sorted(instr.CALLED)[:200], nontrivial=n, catalog_failures=fails)
 
 
-def check_concrete(hz, job, value, position):
+def check_concrete(hz, job, value, position, value2=None):
     fmt, version = job['fmt'], job['version']
     multi = job.get('multi', False)
     if job.get('assert') in ('zincref', 'jsonref'):
-        g = build_grid(hz, position, value, version)
+        g = build_grid(hz, position, value, version, value2)
         try:
             with contextlib.redirect_stdout(io.StringIO()):
                 msg, f = (writer_vs_reference if job['assert'] == 'zincref' else json_writer_vs_reference)(hz, g, multi, False)
@@ -575,7 +594,7 @@ def check_concrete(hz, job, value, position):
             msg = 'the reference reader recovers a different grid'
         return msg
     opts = dict(six_decimals=(fmt == 'json'), ordered_meta=True)
-    g = build_grid(hz, position, value, version)
+    g = build_grid(hz, position, value, version, value2)
     mode = hz.MODE_ZINC if fmt == 'zinc' else hz.MODE_JSON
     try:
         with contextlib.redirect_stdout(io.StringIO()):
@@ -627,6 +646,8 @@ def replay(hz, job, payload):
     Returns None when the property holds for this payload, else a message."""
     if job.get('kind') == 'catalog':
         return replay_catalog(hz, job, payload)
+    if job.get('kind2'):
+        return check_concrete(hz, job, make_payload(hz, job['kind'], payload[0]), job['position'], make_payload(hz, job['kind2'], payload[1]))
     value = make_payload(hz, job['kind'], payload)
     return check_concrete(hz, job, value, job['position'])
 
